@@ -453,8 +453,9 @@ private:
       }
     }
 
-    // Check if we have too many files in the queue remove_file the oldest one
-    if (_created_files.size() > _config.max_backup_files())
+    // Check if we have too many files in the queue remove_file the oldest ones. More than one can be
+    // in excess when a previous run (or a larger max_backup_files) left more files than the limit
+    while (_created_files.size() > _config.max_backup_files())
     {
       // remove_file that file from the system and also pop it from the queue
       fs::path const removed_file = _get_filename(
